@@ -76,8 +76,13 @@ def _is_dirty(n):
     return is_call_to(n, "mark_dirty")
 
 
+# methods of the method object that push a declared value / guess table into the live transcription
+# (apply_initial = set_initial + the local time-grid guesses that follow from it; its sequence is checked by R10.2)
+WRITE_THROUGH = ("set_value", "set_initial", "apply_initial")
+
+
 def _is_write_through(n):
-    return isinstance(n, ast.Call) and isinstance(n.func, ast.Attribute) and n.func.attr in ("set_value", "set_initial") \
+    return isinstance(n, ast.Call) and isinstance(n.func, ast.Attribute) and n.func.attr in WRITE_THROUGH \
         and ast.unparse(n.func.value) in ("self._method", "stage._method")
 
 
@@ -569,7 +574,7 @@ def r13_8(ctx):
                   expected="work on a copy (initial = HashOrderedDict(initial)) before deleting/adding entries", found="; ".join(ast.unparse(m)[:60] for m in muts[:2]), fi=f,
                   node=(muts[0] if muts else None))
     f = prog.own_method("Stage", "set_initial")
-    calls = [c for c in walk_no_nested(f.node) if is_call_to(c, "set_initial", "self._method")]
+    calls = [c for c in walk_no_nested(f.node) if is_call_to(c, "set_initial", "self._method") or is_call_to(c, "apply_initial", "self._method")]
     nn = ctx.norm(f)
     ok = len(calls) == 1 and [nn.key(a) for a in calls[0].args] == ["self._augmented", "self.master._method", "self._initial"]
     ctx.check(ok, "Stage.set_initial re-applies the whole guess table to the live transcription", detail="write-through call", expected="self._method.set_initial(self._augmented, self.master._method, self._initial)",
